@@ -539,21 +539,7 @@ func checkLogArgsUntransformed(c *Ctx, r *Report, rule string) {
 		va := m.Params[len(m.Params)-1]
 		n++
 		construct := "logging.Instance." + m.Name() + " formats its arguments as given"
-		bad := ""
-		for _, ref := range *va.Referrers() {
-			ci, ok := ref.(ssa.CallInstruction)
-			if !ok {
-				if _, isDbg := ref.(*ssa.DebugRef); isDbg {
-					continue
-				}
-				bad = "the argument list is taken apart before formatting"
-				continue
-			}
-			o := CalleeObj(ci)
-			if o == nil || o.Pkg() == nil || o.Pkg().Path() != "fmt" || !strings.HasPrefix(o.Name(), "Sprint") {
-				bad = "the argument list is handed to " + describeCall(c, ci) + " instead of fmt.Sprint*"
-			}
-		}
+		bad := argsGoToFmtOnly(c, va, 0)
 		if bad == "" {
 			r.OK(rule, construct, c.Pos(m.Pos()), "a ...interface{} goes to fmt.Sprint* unchanged")
 		} else {
@@ -671,4 +657,32 @@ func checkRPCDoesNotConsume(c *Ctx, r *Report, rule string) {
 		}
 	}
 	r.OK(rule, construct, c.Pos(sendRPC.Pos()), fmt.Sprintf("%d function(s) below sendRPC: none reads from the channel", len(scope)))
+}
+
+// argsGoToFmtOnly: every use of the variadic argument slice is as the argument list of fmt.Sprint*, directly or through
+// a helper of the logging package that does the same with its own variadic parameter. "" when so.
+func argsGoToFmtOnly(c *Ctx, va ssa.Value, depth int) string {
+	for _, ref := range *va.Referrers() {
+		ci, ok := ref.(ssa.CallInstruction)
+		if !ok {
+			if _, isDbg := ref.(*ssa.DebugRef); isDbg {
+				continue
+			}
+			return "the argument list is taken apart before formatting"
+		}
+		o := CalleeObj(ci)
+		if o != nil && o.Pkg() != nil && o.Pkg().Path() == "fmt" && strings.HasPrefix(o.Name(), "Sprint") {
+			continue
+		}
+		if h := ci.Common().StaticCallee(); h != nil && depth < 2 && h.Pkg != nil && h.Pkg.Pkg.Path() == modPath+"/logging" && h.Signature.Variadic() && len(h.Params) > 0 {
+			args := ci.Common().Args
+			if len(args) == len(h.Params) && args[len(args)-1] == va {
+				if sub := argsGoToFmtOnly(c, h.Params[len(h.Params)-1], depth+1); sub == "" {
+					continue
+				}
+			}
+		}
+		return "the argument list is handed to " + describeCall(c, ci) + " instead of fmt.Sprint*"
+	}
+	return ""
 }
